@@ -100,6 +100,19 @@ def run(F, rep, tier):
     global_leak(rep, lua)
 
 
+def library_typing(F, rep):
+    """the part of C18 that type soundness rests on (C02): what the std declarations say about the externals - names, arities,
+    the order in which a callback receives its arguments, the type arguments of generic results - is what the Lua
+    definitions do"""
+    lua = Lua(F.read("sylt-compiler/src/preamble.lua"))
+    mods = {}
+    for m in STD:
+        mods[m] = syparse.read_module(F.read(os.path.join("std", m + ".sy")))
+    externals(rep, lua, mods)
+    callback_roles(rep, lua, mods)
+    externals_fully_typed(F, rep, mods)
+
+
 def externals(rep, lua, mods):
     n = 0
     for mname, mod in mods.items():
@@ -588,7 +601,9 @@ def index_bounds(rep, lua):
             # stray element that #l, pairs() and the printer disagree about
             writes = any(x.get("k") == "Assign" and any(t.get("k") == "Index" and luaparse.show(t["obj"]) == l for t in x["targets"])
                          for x in luaparse.walk(st["clauses"][0][1]))
-            if writes:
+            # .. and so must a guarded read that is wrapped as `Just` without looking at it: l[0] (i = -1) is nil, `Just nil` is not None
+            wraps = any(x.get("k") == "Table" and "Just" in luaparse.show(x) for x in luaparse.walk(st["clauses"][0][1]))
+            if writes or wraps:
                 let_in = []
                 for n in (1, 2, 5):
                     for iv in (-1, n):
@@ -598,7 +613,7 @@ def index_bounds(rep, lua):
                         except (KeyError, TypeError):
                             let_in.append(("?", "?"))
                 rep.ob("INDEX-BOUNDS", "%s|guard-excludes-invalid" % name, not let_in,
-                       "%s writes under `%s`; invalid indices let through (length, index): %s" % (name, luaparse.show(cond), let_in or "none"),
+                       "%s %s under `%s`; invalid indices let through (length, index): %s" % (name, "writes" if writes else "wraps the element as Just", luaparse.show(cond), let_in or "none"),
                        "sylt-compiler/src/preamble.lua:%s" % st.get("line"))
             rep.ob("INDEX-BOUNDS", "%s|guard" % name, not bad,
                    "%s guards its access with `%s`; valid indices rejected (length, index): %s" % (name, luaparse.show(cond), bad or "none"),
